@@ -73,10 +73,15 @@ func safePool() []interface{} {
 		arr(tm(946684800, 5, 3600, "CET")), arr(obj("k", tm(946684800, 6, -7200, "X"))), arr(obj("k", arr(tm(0, 0, 0, "UTC")))),
 		obj(), obj("k", i64(1)), obj("k", i64(2)), obj("a", i64(1), "b", "x"), obj("k", obj("j", tm(1700000000, 1, 60, "Z1"))), obj("k", nil),
 		tm(946684800, 7, 3601, "odd"), // zone offset that is not a whole number of minutes
+		longStr("a"), longStr("b"), longStr("bb"), medStr("x"), medStr("y"), // long strings that differ only after a long common prefix
+		i64(1<<53 - 1), f64(math.MaxFloat64), tm(1700000000, 255, 0, "UTC"), // encodings whose last byte is 0xff
 		arr(obj("k", arr(obj("j", arr(tm(1700000000, 2, -3600, "W"), nil, i64(1)))))), // depth 5
 		obj("k", arr(arr(), obj(), "", nil)),
 	}
 }
+
+func longStr(tail string) interface{} { return strings.Repeat("p", 300) + tail }
+func medStr(tail string) interface{}  { return strings.Repeat("q", 70) + tail }
 
 func jsonSafePool() []interface{} {
 	return []interface{}{
@@ -799,6 +804,10 @@ func (g *Gen) make(k string, m *model.DB) Op {
 	case "ListIndexes":
 		return Op{K: k, Coll: coll}
 	case "Export":
+		if len(g.files) > 0 && g.R.Chance(0.35) {
+			// export again to a path that already holds an (often longer) export
+			return Op{K: k, Coll: coll, File: g.files[g.R.Intn(len(g.files))]}
+		}
 		g.nfiles++
 		f := fmt.Sprintf("exp%d.json", g.nfiles)
 		g.files = append(g.files, f)
